@@ -21,6 +21,8 @@ DATA = "src/hyperloglog/data.rs"
 
 
 def M(prop, name, edits, rule, construct=""):
+    if edits is None:
+        return
     if isinstance(edits, tuple):
         edits = [edits]
     SPECS.append({"property": prop, "kind": "mutant", "name": name, "rule": rule, "construct": construct,
@@ -260,6 +262,21 @@ B("C07", "cuckoo-sizing-reordered", (CF, "        let costs = (l_fingerprint as 
 B("C08", "e-over-eps-let", (CMS, "        let w = (f64::consts::E / epsilon).ceil() as usize;", "        let cols = f64::consts::E / epsilon;\n        let w = cols.ceil() as usize;"))
 B("C01", "bloom-query-all", (BF, "        for pos in self.builder.iter_for(obj) {\n            if !self.bs[pos] {\n                return false;\n            }\n        }\n        true", "        let mut it = self.builder.iter_for(obj);\n        while let Some(pos) = it.next() {\n            if !self.bs[pos] {\n                return false;\n            }\n        }\n        true"))
 B("C03", "estimate-bias-let-offset", (HLL, "        let lookup_array = RAW_ESTIMATE_DATA_VEC[self.b - RAW_ESTIMATE_DATA_OFFSET];", "        let row = self.b - RAW_ESTIMATE_DATA_OFFSET;\n        let lookup_array = RAW_ESTIMATE_DATA_VEC[row];"))
+
+# ======================================================================================= C04
+M("C04", "k-step-two", (TD, "                q_limit = self.scale_function.f_inv(\n                    self.scale_function.f(q_0, self.n_samples) + 1.,", "                q_limit = self.scale_function.f_inv(\n                    self.scale_function.f(q_0, self.n_samples) + 2.,"), "R04-merge-criterion", "merge")
+
+M("C04", "fuse-criterion-without-next", (TD, "            let q = q_0 + (current.count + next.count) / s;", "            let q = q_0 + current.count / s;"), "R04-merge-criterion", "merge")
+M("C04", "q0-advanced-by-next", (TD, "                q_0 += current.count / s;", "                q_0 += next.count / s;"), "R04-merge-criterion", "merge")
+M("C04", "sort-descending", (TD, "        x.sort_by(|t1, t2| t1.0.partial_cmp(&t2.0).unwrap());", "        x.sort_by(|t1, t2| t2.0.partial_cmp(&t1.0).unwrap());"), "R04-sorted-input", "merge")
+M("C04", "sort-key-sum", (TD, "            .map(|c| (c.mean(), c))", "            .map(|c| (c.sum, c))"), "R04-sorted-input", "merge")
+M("C04", "k1-no-clamp", (TD, "    fn f(&self, q: f64, _n: usize) -> f64 {\n        let q = q.min(1.).max(0.);\n        self.delta / (2. * f64::consts::PI) * (2. * q - 1.).asin()", "    fn f(&self, q: f64, _n: usize) -> f64 {\n        self.delta / (2. * f64::consts::PI) * (2. * q - 1.).asin()"), "R04-scale-clamp", "K1")
+M("C04", "backlog-merge-on-ge", (TD, "        if self.backlog.len() > self.max_backlog_size {\n            self.merge();", "        if self.backlog.len() > self.max_backlog_size + 1 {\n            self.merge();"), "R04-backlog-policy", "insert_weighted")
+M("C04", "n-samples-wrong-source", (TD, "                q_limit = self.scale_function.f_inv(\n                    self.scale_function.f(q_0, self.n_samples) + 1.,\n                    self.n_samples,", "                q_limit = self.scale_function.f_inv(\n                    self.scale_function.f(q_0, self.n_samples) + 1.,\n                    self.centroids.len(),"), "R04-merge-criterion", "merge")
+B("C04", "limit-helper", [(TD, "        let mut q_limit = self.scale_function.f_inv(\n            self.scale_function.f(q_0, self.n_samples) + 1.,\n            self.n_samples,\n        );", "        let mut q_limit = self.limit_after(q_0);"),
+                          (TD, "                q_limit = self.scale_function.f_inv(\n                    self.scale_function.f(q_0, self.n_samples) + 1.,\n                    self.n_samples,\n                );", "                q_limit = self.limit_after(q_0);"),
+                          (TD, "    #[inline(always)]\n    fn interpolate(", "    fn limit_after(&self, q_0: f64) -> f64 {\n        self.scale_function.f_inv(\n            self.scale_function.f(q_0, self.n_samples) + 1.,\n            self.n_samples,\n        )\n    }\n\n    #[inline(always)]\n    fn interpolate(")])
+B("C04", "criterion-flipped", (TD, "            if q <= q_limit {\n                current = current.fuse(&next);\n            } else {", "            if q_limit >= q {\n                current = current.fuse(&next);\n            } else {"))
 
 
 def main():
